@@ -11,8 +11,10 @@ from __future__ import annotations
 
 from typing import Any
 
-from vf import env, par, runsim, sched, tasks_prog
+from vf import e1, env, par, runsim, sched, tasks_prog, worlds
 from vf.report import Ctx, Partial
+
+MOD = "vf.props.c19"
 
 SCRIPTS = [["ret", 1], ["retry_until", 2, 1], ["retry_until", 3, 1], ["always_retry"], ["fail", "x"]]
 CHILD_TYPES = [(0, ["ret", 1]), (1, ["retry_until", 2, 1]), (0, ["fail", "x"]), (1, ["always_retry"])]
@@ -248,7 +250,104 @@ def _shape(spec: dict) -> str:
     return f"{spec.get('call', 'single')}[{inner}]"
 
 
+# ---------------------------------------------------------------------------
+# E1: the retry accounting under interleavings of two workers (whoever polls runs the next attempt)
+# ---------------------------------------------------------------------------
+class RetryScn:
+    """One invocation of a scripted task; two poller+worker actors (one app object each on SQLite, threads of one
+    process on memory); all schedules up to the bound. Body executions and the final status must be what the
+    statement says (max_retries+1 executions then FAILED / k executions then SUCCESS), whoever runs which attempt."""
+
+    def __init__(self, desc: dict) -> None:
+        self.desc = desc
+        self.points = (worlds.MEM_FILES, "line") if desc["backend"] == env.MEM else None
+
+    def execute(self, choices: list[int], expect: Any) -> sched.Execution:
+        from vf import tasks
+        from vf.worlds import World, runner_ctx
+
+        d = self.desc
+        w = World(d["backend"], 3, app_id="c19r")
+        w.bind(tasks.scripted, max_retries=d["mr"])
+        w.execs = 0
+        script = d["script"]
+
+        def body(name: str, x: int) -> Any:
+            from pynenc.exceptions import RetryError
+
+            w.execs += 1
+            if script[0] == "always_retry" or (script[0] == "retry_until" and w.execs < script[1]):
+                raise RetryError(f"attempt {w.execs}")
+            return x
+        tasks.HOOKS["script"] = body
+        w.ids = [str(w.task("scripted", 2)("a", 7).invocation_id)]
+        w.flush()
+
+        def actor(j: int) -> Any:
+            def f() -> None:
+                ctx = runner_ctx(f"r{j}")
+                app = w.apps[j]
+                for _ in range(d["mr"] + 2):
+                    try:
+                        got = list(app.orchestrator.get_invocations_to_run(1, ctx))
+                    except sched.Abort:
+                        raise
+                    except Exception as e:  # noqa: BLE001
+                        w.log.append(("poll-error", worlds._tid(), type(e).__name__, f"r{j}"))
+                        got = []
+                    for inv in got:
+                        try:
+                            inv.run(ctx)
+                        except sched.Abort:
+                            raise
+                        except Exception as e:  # noqa: BLE001 - the last attempt re-raises the body's exception
+                            w.log.append(("run-error", worlds._tid(), type(e).__name__, f"r{j}"))
+            return f
+
+        s = sched.Scheduler(choices, expect, max_points=6000, lazy=("_add_histories",))
+        ex = s.run([(f"w{j}", actor(j)) for j in range(2)])
+        ex.world = w
+        return ex
+
+    def digest(self, ex: sched.Execution) -> Any:
+        w = ex.world
+        return (w.execs, w.record(w.ids[0], -1), ex.outcome)
+
+    def check(self, ex: sched.Execution, p: Partial) -> None:
+        w, d = ex.world, self.desc
+        base = dict(backend=d["backend"], script=d["script"][0], max_retries=d["mr"])
+        if ex.outcome != "done":
+            p.violation({"clause": f"no-progress:{ex.outcome}", **base}, {"log": w.log[-8:]}, {})
+            return
+        exp = expected_counts({"sc": d["script"], "mr": d["mr"]})
+        st = w.record(w.ids[0], -1)[0]
+        want = "SUCCESS" if exp["ok"] else "FAILED"
+        if w.execs != exp["n"] or st != want:
+            p.violation({"clause": "retry-accounting-differs-from-statement", "mode": "two-workers", **base},
+                        {"body_executions": w.execs, "expected_executions": exp["n"], "final_status": st, "expected_status": want,
+                         "retries_recorded": w.apps[-1].orchestrator.get_invocation_retries(w.ids[0])}, {})
+
+
+def build(desc: dict) -> RetryScn:
+    return RetryScn(desc)
+
+
+def retry_descs(ctx: Ctx) -> list[dict]:
+    out = []
+    for backend in env.BACKENDS:
+        for mr, script in ((0, ["always_retry"]), (1, ["always_retry"]), (1, ["retry_until", 2]), (1, ["retry_until", 3]),
+                           (2, ["retry_until", 3])):
+            out.append(dict(backend=backend, mr=mr, script=script, bound=2 if ctx.thorough else 1))
+    return out
+
+
 def run(ctx: Ctx) -> None:
+    only_ = getattr(ctx, "only", None)
+    if not only_ or only_ == "retry-schedules":
+        e1.explore_all(ctx, MOD, retry_descs(ctx), lambda d: d["bound"])
+        if only_:
+            ctx.rule = "retry accounting under two interleaved workers only"
+            return
     progs = programs(ctx.thorough)
     only = getattr(ctx, "only", None)
     if only:
@@ -262,7 +361,9 @@ def run(ctx: Ctx) -> None:
                 "children called singly; root + group of 2; root -> child -> grandchild), each run inline in sync mode and "
                 "on the in-memory and SQLite stacks with the real ThreadRunner under the default and the round-robin "
                 "schedule (thorough: 1 and 2 slots): value / exception class+args at the caller, body executions per node "
-                "and num_retries compared; leaf programs also against the statement's retry accounting")
+                "and num_retries compared; leaf programs also against the statement's retry accounting; plus the retry accounting "
+                "with two interleaved workers (always retriable / succeeds on attempt 2 or 3, max_retries 0..2, both backends), "
+                "all schedules with <= 1 (thorough 2) deviations")
     ctx.assume("group results are combined with an order-insensitive sum (distributed groups yield in completion order)")
     ctx.assume("body executions of the distributed run are counted after the runner has finished everything that was submitted "
                "(the caller's outcome is taken when the caller gets it)")
@@ -272,5 +373,7 @@ def run(ctx: Ctx) -> None:
 
 def replay(payload: dict) -> bool:
     r = payload["replay"]
+    if r.get("kind") == "schedule":
+        return e1.replay_schedule(r)
     p = _unit(([r["spec"]], False))
     return bool(p.violations)
